@@ -206,6 +206,16 @@ func sortedAfter(p *core.Prog, f *core.Func, rs *ast.RangeStmt, o types.Object) 
 			if (nm == "sort.Strings" || nm == "sort.Ints" || nm == "slices.Sort") && len(c.Args) == 1 && core.ObjOf(info, c.Args[0]) == o {
 				sortNode = n
 			}
+			// handed to a helper of the package that sorts it in place before it does anything else with it
+			if fo := core.Callee(info, c); fo != nil {
+				if h := p.ByObj[fo.Origin()]; h != nil && h.Body != nil && h.Pkg == f.Pkg {
+					for ai, a := range c.Args {
+						if core.ObjOf(info, a) == o && helperSortsParamFirst(p, h, ai) {
+							sortNode = n
+						}
+					}
+				}
+			}
 		}
 	}
 	if sortNode == nil {
@@ -229,11 +239,36 @@ func c07MapOrder(r *core.Report) {
 	scope := []string{"main.(*MultiEpoch).handleGetSignaturesForAddress", "main.countTransactions",
 		"gsfa.(*GsfaReaderMultiepoch).iterBeforeUntil", "gsfa.(*GsfaReaderMultiepoch).iterBeforeUntilSlot", "gsfa.(EpochToTransactionObjects).Count",
 		"main.(*MultiEpoch).processSlotTransactions", "main.(*txBuffer).flush"}
+	// the entry points must exist; the helpers are examined when they exist, and so is every function of the same package
+	// an entry point reaches within two calls (whatever a helper was renamed to or replaced by)
+	required := map[string]bool{"main.(*MultiEpoch).handleGetSignaturesForAddress": true, "gsfa.(*GsfaReaderMultiepoch).iterBeforeUntil": true,
+		"gsfa.(*GsfaReaderMultiepoch).iterBeforeUntilSlot": true, "main.(*MultiEpoch).processSlotTransactions": true}
+	var fns []*core.Func
+	seenFn := map[*core.Func]bool{}
 	for _, k := range scope {
-		f := r.Anchor(rule, k)
+		var f *core.Func
+		if required[k] {
+			f = r.Anchor(rule, k)
+		} else {
+			f = p.Fn(k)
+		}
 		if f == nil {
 			continue
 		}
+		if !seenFn[f] {
+			seenFn[f] = true
+			fns = append(fns, f)
+		}
+		if k == "main.(*MultiEpoch).handleGetSignaturesForAddress" {
+			for _, h := range pkgScope(p, f, 2) {
+				if h.Lit == nil && !seenFn[h] {
+					seenFn[h] = true
+					fns = append(fns, h)
+				}
+			}
+		}
+	}
+	for _, f := range fns {
 		for _, fn := range f.AllWithLits() {
 			i := 0
 			for rs, eff := range mapRangeEffectsOrdered(p, fn) {
@@ -757,7 +792,46 @@ func c07LimitCountsWholeResult(r *core.Report) {
 		}
 		g, apps, _ := resultAppends(p, f)
 		if len(apps) == 0 {
-			r.Undecided(rule, f.Key+"#append", posP(r, f.Pos()), "append to the result not found")
+			// the capped append is done by a helper: res = appendUpToLimit(res, part, limit)
+			nDel := 0
+			for _, nd := range stmtNodes(g) {
+				as, ok := nd.Ast.(*ast.AssignStmt)
+				if !ok || len(as.Rhs) != 1 || len(as.Lhs) != 1 {
+					continue
+				}
+				c, ok := core.Unparen(as.Rhs[0]).(*ast.CallExpr)
+				if !ok {
+					continue
+				}
+				fo := core.Callee(info, c)
+				if fo == nil {
+					continue
+				}
+				h := p.ByObj[fo.Origin()]
+				res := core.ObjOf(info, as.Lhs[0])
+				if h == nil || h.Body == nil || h.Pkg != f.Pkg || res == nil {
+					continue
+				}
+				di, li := -1, -1
+				for ai, a := range c.Args {
+					if core.ObjOf(info, a) == res {
+						di = ai
+					}
+					if core.ObjOf(info, a) == types.Object(limit) {
+						li = ai
+					}
+				}
+				if di < 0 || li < 0 {
+					continue
+				}
+				nDel++
+				okH, why := cappedAppendHelper(p, h, di, li)
+				r.Check(okH, rule, fmt.Sprintf("%s#append%d-limit-counts-whole-result", f.Key, nDel-1), pos(r, as), "the helper that appends caps the number of elements by limit minus the size of the whole result",
+					"the helper "+h.Key+" that appends to the result "+why+": more than `limit` entries can be returned")
+			}
+			if nDel == 0 {
+				r.Undecided(rule, f.Key+"#append", posP(r, f.Pos()), "append to the result not found")
+			}
 			continue
 		}
 		for i, an := range apps {
@@ -1470,12 +1544,30 @@ func slotWalkStopsOnlyBelowRange(r *core.Report, rule string) {
 			return
 		case *ast.SwitchStmt:
 			// switch over a classifier helper: inside `case K:` the helper's own comparisons hold
+			var earlier []guard // tag-less switch: the tests of the preceding clauses failed
 			for _, cl := range x.Body.List {
 				cc, isCC := cl.(*ast.CaseClause)
 				if !isCC {
 					continue
 				}
 				inner := append([]guard(nil), gs...)
+				if x.Tag == nil {
+					inner = append(inner, earlier...)
+					if len(cc.List) == 1 {
+						for _, fct := range core.DecomposeCond(cc.List[0], true) {
+							inner = append(inner, guard{fct.Expr, fct.Truth})
+						}
+					}
+					for _, ce := range cc.List {
+						for _, fct := range core.DecomposeCond(ce, false) {
+							earlier = append(earlier, guard{fct.Expr, fct.Truth})
+						}
+					}
+					for _, st := range cc.Body {
+						walk(st, inner)
+					}
+					continue
+				}
 				if len(cc.List) == 1 {
 					if ce := core.ClassifierCond(f, x, cc.List[0]); ce != nil {
 						for _, fct := range core.DecomposeCond(ce, true) {
@@ -1543,4 +1635,135 @@ func slotWalkStopsOnlyBelowRange(r *core.Report, rule string) {
 	if n == 0 {
 		r.Undecided(rule, f.Key+"#stops", posP(r, f.Pos()), "no loop exit guarded by the lower bound found")
 	}
+}
+
+// cappedAppendHelper: h(dst, .., limit, ..) returns dst or append(dst, ...), and every test in h that depends on the limit
+// (directly or through a local computed from it) also depends on len(dst) - the size of the whole result - unless it is
+// the test that there is a limit at all (limit > 0).
+func cappedAppendHelper(p *core.Prog, h *core.Func, dstIdx, limitIdx int) (bool, string) {
+	dst, lim := h.ParamObj(dstIdx), h.ParamObj(limitIdx)
+	if dst == nil || lim == nil {
+		return false, "could not be analysed"
+	}
+	info := h.Pkg.TypesInfo
+	g := p.Graph(h)
+	for _, rn := range g.Returns() {
+		res := returnResults(rn)
+		if len(res) != 1 {
+			return false, "has a return that is neither the result nor an append to it"
+		}
+		e := core.Unparen(res[0])
+		if core.ObjOf(info, e) == types.Object(dst) {
+			continue
+		}
+		if c, ok := e.(*ast.CallExpr); ok && core.BuiltinName(info, c) == "append" && len(c.Args) >= 1 && core.ObjOf(info, c.Args[0]) == types.Object(dst) {
+			continue
+		}
+		return false, "has a return that is neither the result nor an append to it"
+	}
+	// locals derived from the limit, and whether their derivation involves len(dst)
+	derived := map[types.Object]bool{types.Object(lim): true}
+	viaLenDst := map[types.Object]bool{}
+	mentionsLenDst := func(e ast.Expr) bool {
+		found := false
+		ast.Inspect(e, func(n ast.Node) bool {
+			if c, ok := n.(*ast.CallExpr); ok && core.BuiltinName(info, c) == "len" && len(c.Args) == 1 && core.ObjOf(info, c.Args[0]) == types.Object(dst) {
+				found = true
+			}
+			if id, ok := n.(*ast.Ident); ok && viaLenDst[info.Uses[id]] {
+				found = true
+			}
+			return !found
+		})
+		return found
+	}
+	mentionsDerived := func(e ast.Expr) bool {
+		found := false
+		ast.Inspect(e, func(n ast.Node) bool {
+			if id, ok := n.(*ast.Ident); ok && derived[info.Uses[id]] {
+				found = true
+			}
+			return !found
+		})
+		return found
+	}
+	for changed := true; changed; {
+		changed = false
+		ast.Inspect(h.Body, func(n ast.Node) bool {
+			if as, ok := n.(*ast.AssignStmt); ok && len(as.Lhs) == len(as.Rhs) {
+				for i, l := range as.Lhs {
+					o := core.ObjOf(info, l)
+					if o == nil || o == types.Object(dst) {
+						continue
+					}
+					if mentionsDerived(as.Rhs[i]) && !derived[o] {
+						derived[o] = true
+						changed = true
+					}
+					if derived[o] && mentionsLenDst(as.Rhs[i]) && !viaLenDst[o] {
+						viaLenDst[o] = true
+						changed = true
+					}
+				}
+			}
+			return true
+		})
+	}
+	nTests := 0
+	for _, e := range g.Nodes {
+		if e.Kind != core.KEdge || e.Ast == nil || !e.Truth {
+			continue
+		}
+		cond, ok := e.Ast.(ast.Expr)
+		if !ok {
+			continue
+		}
+		for _, cj := range conjuncts(cond) {
+			if !mentionsDerived(cj) {
+				continue
+			}
+			// limit > 0 / limit <= 0 : is there a limit at all
+			if be, ok := core.Unparen(cj).(*ast.BinaryExpr); ok {
+				if x, c, isC := orientConst(info, be); isC && c == 0 && core.ObjOf(info, x) == types.Object(lim) {
+					continue
+				}
+			}
+			nTests++
+			if !mentionsLenDst(cj) {
+				return false, "compares the limit with [" + core.ExprStr(cj) + "], which does not involve the size of the whole result"
+			}
+		}
+	}
+	if nTests == 0 {
+		return false, "never compares anything with the limit"
+	}
+	return true, ""
+}
+
+// helperSortsParamFirst: h sorts its i-th parameter (a slice) by a strict, recognised comparator, and that sort dominates
+// every other statement of h that mentions the parameter.
+func helperSortsParamFirst(p *core.Prog, h *core.Func, i int) bool {
+	po := h.ParamObj(i)
+	if po == nil {
+		return false
+	}
+	info := h.Pkg.TypesInfo
+	g := p.Graph(h)
+	var sortNode *core.GNode
+	for _, n := range stmtNodes(g) {
+		for _, si := range sortCalls(info, n.Ast) {
+			if si.SliceObj == types.Object(po) && si.Decided && si.Strict && sortNode == nil {
+				sortNode = n
+			}
+		}
+	}
+	if sortNode == nil {
+		return false
+	}
+	for _, n := range stmtNodes(g) {
+		if n != sortNode && core.MentionsOutsideLits(info, n.Ast, po) && !g.Dominates(sortNode, n) {
+			return false
+		}
+	}
+	return true
 }
